@@ -3,22 +3,23 @@ from ..props import prop
 
 prop(
     "C38",
+    ready=True,
     level="other",
     explanation=(
         "Kani executes the real RtpsUdpTransportParticipantFactory::default(), set_fragment_size(a), set_fragment_size(b), "
         "fragment_size() with a and b symbolic over the full usize domain (the factory is a plain struct, no socket is "
         "opened before create_participant; the code is loop-free, so there is no unwinding bound). Oracle = the documented "
         "contract: Ok iff 8 <= argument <= 65000; Err is BadParameter and leaves fragment_size() unchanged; Ok stores the "
-        "argument. The previous setting is 'any setting reachable by one earlier call', which (because of KF-C38-1) is every "
-        "usize value."),
+        "argument. The previous setting is 'any setting reachable by one earlier call'; the harness also asserts the "
+        "representation invariant (stored value inside 8..=65000) before and after the step, which closes histories of any length."),
     bounds="none on values (a, b: full usize domain); histories: default() followed by at most two set_fragment_size calls",
     outside="create_participant (sockets, network interfaces) and the effect of the fragment size on the messages actually sent "
-            "(covered by the fragmentation properties); histories longer than two calls are covered only through the fact that "
-            "the first call reaches every usize value as the previous setting",
+            "(covered by the fragmentation properties); histories longer than two calls are covered through the asserted invariant "
+            "(stored setting in 8..=65000), which both calls re-establish",
     level_text="Loop-free integer code decided by Kani/CBMC over the full usize domain of both arguments; reported as level "
                "'other' (bounded model checker, history length 2).",
-    level_note="trusted: Kani/CBMC. The open finding KF-C38-1 is kept as __known harnesses restricted to its trigger "
-               "(in_range(argument) != in_range(previous setting)); the sibling __rest harnesses assume the negation and must hold.",
+    level_note="trusted: Kani/CBMC. The defect found by this check (range test applied to the stored value) was repaired by "
+               "fix commit b57fe17 and is recorded as 'fixed:' in known_findings.json; nothing is suppressed.",
     technique="Kani/CBMC symbolic execution of the real factory methods, full usize domain",
     assumptions=[],
     timeout={"quick": 300, "thorough": 600},
